@@ -27,7 +27,11 @@ class BlackScholesParameters(Parameters):
         :param sigma: Black-Scholes volatility
         """
         self.sigma = sigma
-        self.variance = sigma * sigma
+        self.variance = None
+        self.initialisation()
+
+    def initialisation(self):
+        self.variance = self.sigma * self.sigma
 
     def __repr__(self) -> str:
         return "BlackScholesParameters(sigma={sigma})".format(sigma=self.sigma)
